@@ -104,6 +104,10 @@ pub struct GenParams {
     pub sentences: usize,
     pub styled: bool,
     pub all_opts: bool,
+    /// inputs are random character soup and garbled sentences (robustness, C19)
+    pub junk: bool,
+    /// keep cyclic LALR(1) grammars (the real LR parser may not terminate on them: finding F24)
+    pub keep_cyclic: bool,
 }
 
 fn opts_cycle(i: usize, all: bool) -> Vec<Opts> {
@@ -144,7 +148,10 @@ pub fn gen_cases(seed: u64, p: &GenParams, lalr: bool) -> Vec<String> {
         if !seen.insert(g.show()) {
             continue;
         }
-        if lalr && g.has_cycle() {
+        if p.keep_cyclic && !g.has_cycle() {
+            continue;
+        }
+        if lalr && g.has_cycle() && !p.keep_cyclic {
             continue; // F24: the generated LR parser may not terminate on cyclic grammars (C19 handles it)
         }
         let po = ParOpts {
@@ -191,9 +198,15 @@ pub fn gen_cases(seed: u64, p: &GenParams, lalr: bool) -> Vec<String> {
                 ws.push(s);
             }
         }
+        if p.junk {
+            ws.truncate(p.exhaustive_cap / 4);
+        }
         for (i, w) in ws.iter().enumerate() {
             let style = if p.styled && i % 2 == 1 { 1 } else { 0 };
-            let text = render_text(w, style, &po, &mut rng);
+            let mut text = render_text(w, style, &po, &mut rng);
+            if p.junk && i % 3 != 0 {
+                text = junk_text(&text, &mut rng);
+            }
             let toks = match b.tokens(&text, 1) {
                 Ok(t) => t,
                 Err(_) => continue,
@@ -219,14 +232,46 @@ pub fn gen_cases(seed: u64, p: &GenParams, lalr: bool) -> Vec<String> {
     out
 }
 
+/// Garbles a text: random insertions of arbitrary characters (ASCII punctuation, digits, control
+/// characters, multi-byte characters), deletions, duplications, or pure character soup.
+pub fn junk_text(text: &str, rng: &mut Rng) -> String {
+    let pool: Vec<char> = "abcxyz019 \t\n\r!\"#$%&'()*+,-./:;<=>?@[\\]^_`{|}~\u{0}\u{7f}\u{e4}\u{20ac}\u{1F600}".chars().collect();
+    if rng.chance(1, 4) {
+        let n = rng.range(0, 24);
+        return (0..n).map(|_| pool[rng.below(pool.len())]).collect();
+    }
+    let mut cs: Vec<char> = text.chars().collect();
+    for _ in 0..rng.range(1, 4) {
+        match rng.below(3) {
+            0 => {
+                let i = rng.below(cs.len() + 1);
+                cs.insert(i, pool[rng.below(pool.len())]);
+            }
+            1 if !cs.is_empty() => {
+                let i = rng.below(cs.len());
+                cs.remove(i);
+            }
+            _ if !cs.is_empty() => {
+                let i = rng.below(cs.len());
+                let c = cs[i];
+                cs.insert(i, c);
+            }
+            _ => {}
+        }
+    }
+    cs.into_iter().collect()
+}
+
 pub fn generate(seed: u64, thorough: bool, mode: &str) -> Vec<String> {
     let p = match (mode, thorough) {
-        ("opts", false) => GenParams { grammars: 25, max_k: 2, exhaustive_len: 3, exhaustive_cap: 40, sentences: 6, styled: false, all_opts: true },
-        ("opts", true) => GenParams { grammars: 150, max_k: 3, exhaustive_len: 4, exhaustive_cap: 120, sentences: 12, styled: false, all_opts: true },
-        ("styled", false) => GenParams { grammars: 60, max_k: 2, exhaustive_len: 3, exhaustive_cap: 60, sentences: 10, styled: true, all_opts: false },
-        ("styled", true) => GenParams { grammars: 500, max_k: 3, exhaustive_len: 4, exhaustive_cap: 200, sentences: 20, styled: true, all_opts: false },
-        (_, false) => GenParams { grammars: 120, max_k: 3, exhaustive_len: 4, exhaustive_cap: 150, sentences: 10, styled: false, all_opts: false },
-        (_, true) => GenParams { grammars: 1500, max_k: 4, exhaustive_len: 6, exhaustive_cap: 1500, sentences: 30, styled: false, all_opts: false },
+        ("junk", false) => GenParams { grammars: 50, max_k: 3, exhaustive_len: 3, exhaustive_cap: 80, sentences: 12, styled: true, all_opts: false, junk: true, keep_cyclic: false },
+        ("junk", true) => GenParams { grammars: 600, max_k: 4, exhaustive_len: 4, exhaustive_cap: 240, sentences: 30, styled: true, all_opts: false, junk: true, keep_cyclic: false },
+        ("opts", false) => GenParams { grammars: 25, max_k: 2, exhaustive_len: 3, exhaustive_cap: 40, sentences: 6, styled: false, all_opts: true, junk: false, keep_cyclic: false },
+        ("opts", true) => GenParams { grammars: 150, max_k: 3, exhaustive_len: 4, exhaustive_cap: 120, sentences: 12, styled: false, all_opts: true, junk: false, keep_cyclic: false },
+        ("styled", false) => GenParams { grammars: 60, max_k: 2, exhaustive_len: 3, exhaustive_cap: 60, sentences: 10, styled: true, all_opts: false, junk: false, keep_cyclic: false },
+        ("styled", true) => GenParams { grammars: 500, max_k: 3, exhaustive_len: 4, exhaustive_cap: 200, sentences: 20, styled: true, all_opts: false, junk: false, keep_cyclic: false },
+        (_, false) => GenParams { grammars: 120, max_k: 3, exhaustive_len: 4, exhaustive_cap: 150, sentences: 10, styled: false, all_opts: false, junk: false, keep_cyclic: false },
+        (_, true) => GenParams { grammars: 1500, max_k: 4, exhaustive_len: 6, exhaustive_cap: 1500, sentences: 30, styled: false, all_opts: false, junk: false, keep_cyclic: false },
     };
     gen_cases(seed, &p, false)
 }
